@@ -133,6 +133,19 @@ def check_C05(ctx):
             src = b"\n".join(render_block(b) for b in blocks) + b"\nbind srv" + (b":all -> slice\n" if slice_ else b" -> struct\n")
             cases.append(dict(id="deep%d%s" % (k, "s" if slice_ else ""), type=dict(k="slice", elem=deep) if slice_ else deep, mode="ptr",
                               bkind="slice" if slice_ else "struct", blocks=blocks, src=src, prev=3, prefill=(k == 1)))
+    # tags must match exactly while names match folded: a tag that folds onto another field's name, in every spelling
+    tagged = T(fld("Name", STR), fld("Addr", STR, tag="host_name"), fld("HostName", STR), fld("Backup", STR), fld("Primary", STR, tag="Backup"),
+               fld("Max_Conns", INT, tag="max"), fld("Max", INT))
+    for k, keys in enumerate([("host_name", "hostname"), ("host_name", "HOST_NAME"), ("host_name", "hostName"), ("host_name", "Host_Name"),
+                              ("Backup", "backup"), ("Backup", "BACKUP"), ("max", "Max"), ("max", "MAX"), ("max", "m_ax")]):
+        strv = not keys[0].startswith("m")
+        blk = dict(t="cfg", n="c%d" % k, f=[[keys[0], "s7461676765642d%02x" % k if strv else "i%d" % (100 + k)],
+                                              [keys[1], "s6e616d65642d%02x" % k if strv else "i%d" % (200 + k)]])
+        for slice_ in (False, True):
+            blocks = [blk] if not slice_ else [blk, dict(t="cfg", n="", f=[[keys[1], "s78" if strv else "i1"]])]
+            src = b"\n".join(render_block(b) for b in blocks) + b"\nbind cfg" + (b":all -> slice\n" if slice_ else b" -> struct\n")
+            cases.append(dict(id="tag%d%s" % (k, "s" if slice_ else ""), type=dict(k="slice", elem=tagged) if slice_ else tagged, mode="ptr",
+                              bkind="slice" if slice_ else "struct", blocks=blocks, src=src, prev=0, prefill=False))
     # 1. Bind of the blocks themselves (reference), 2. Unmarshal of the text, 3. the model's reading of the text
     bres, _, _ = ctx.probe("bind", [dict(id=c["id"], type=c["type"], mode="ptr", bkind=c["bkind"], blocks=c["blocks"], prev=c["prev"],
                                          prefill=c["prefill"]) for c in cases], tag="ref")
